@@ -110,6 +110,50 @@ def run(pid, tier, replay=None):
         # which the boundary +-2 samples and the random samples test
         total = sum(c.get_block_subsidy(e * interval) * interval for e in range(0, 65))
         ev.append({"k": "sum", "total": digits(total)})
+    # (c) the schedule as *enforced*: the reward rule of block validation (validate_coinbase_transaction_in_coinstate) probed with a
+    #     chain state whose head is at height h-1 (a parentless block filed at that height) and a fee-less block at height h
+    from skepticoin.datatypes import Block, BlockHeader, BlockSummary, PowEvidence, Transaction, Input, Output, OutputReference
+    from skepticoin.signing import CoinbaseData, SECP256k1PublicKey
+    from skepticoin.coinstate import CoinState
+    pk = SECP256k1PublicKey(b"\x07" * 64)
+
+    def blk(height, prev, value):
+        cb = Transaction([Input(OutputReference(b"\x00" * 32, 0), CoinbaseData(height, b"probe"))], [Output(value, pk)])
+        summ = BlockSummary(height, prev, b"\x11" * 32, 1_700_000_000 + (height & 0xffff), b"\xff" * 32, 0)
+        return Block(BlockHeader(summ, PowEvidence(b"\x00" * 32, b"\x00" * 32, b"\x00" * 32)), [cb])
+    probe_heights = set()
+    for e in list(range(1, 67)) + [70]:
+        for dlt in (-1, 0, 1):
+            probe_heights.add(e * interval + dlt)
+    probe_heights |= {1, 2, 2 ** 32 - 1, 2 ** 31, 2 ** 31 + 1}
+    for _ in range(40 if quick else 400):
+        probe_heights.add(rng.randrange(1, 33 * interval))
+    nprobe = 0
+    for h in sorted(probe_heights):
+        parent = blk(h - 1, b"\x00" * 32, 1)
+        try:
+            cs = CoinState.empty().add_block_no_validation(parent)
+        except Exception as ex:
+            return machinery_failure(pid, "cannot build a chain state at height %d: %r" % (h - 1, ex))
+        era = h // interval
+        s_doc = initial // (2 ** era) if era < 64 else 0
+        s_prev = initial // (2 ** (era - 1)) if 1 <= era < 65 else 0
+        for v in sorted({s_doc, s_doc + 1, s_prev, max(s_doc - 1, 0)}):
+            b = blk(h, parent.hash(), v)
+            try:
+                c.validate_coinbase_transaction_in_coinstate(b.transactions[0], b, cs)
+                acc = True
+            except c.ValidationError:
+                acc = False
+            ev.append({"k": "enforce", "h": digits(h), "v": v, "accepted": acc})
+            nprobe += 1
+        try:
+            cbt = c.construct_coinbase_transaction(h, [], {}, b"probe", pk)
+            mv = sum(o.value for o in cbt.outputs)
+            ev.append({"k": "mint", "h": digits(h), "v": mv if 0 <= mv < 2 ** 31 else -1})
+        except Exception as ex:
+            chk.notes.append("construct_coinbase_transaction(%d) raised %r" % (h, ex))
+    chk.extra["enforced_reward_probes"] = nprobe
     chk.sample(ev[0]); chk.sample(ev[10]); chk.sample(ev[-1])
     verdicts, r2 = tracecheck.run("TraceSubsidy", ev, consts, ids=[1], workers=1)
     chk.states += r2.distinct
